@@ -706,6 +706,9 @@ class Schema(BaseField):
 
         :param name: field or schema key
         """
+        if name.startswith("__") and name.endswith("__"):
+            # protocol lookups (copy, pickle, ...) probe for special methods: they never name a field
+            raise AttributeError(name)
         return self._fields.get(name) or self._add_field(name, Schema())
 
     def __call__(self, parent: Optional["Config"] = None, **data):
@@ -1137,6 +1140,9 @@ class Config:  # pylint: disable=too-many-instance-attributes
                 continue
             if name == "_schema":
                 value = self._schema
+            elif name == "_fields":
+                # dynamic fields are declarations, like the schema's: the copy gets its own table of them
+                value = dict(value)
             elif name in ("_parent", "_container"):
                 value = memo.get(id(value), value)
             else:
